@@ -16,7 +16,7 @@
       core/model.py:1351-1399    SpaceManager.del_cells / new_cells
       core/model.py:1559-1801    SpaceUpdater.new_space / add_bases / remove_bases / del_defined_space
       core/cells.py:682-688,715-720,831-844  on_namespace_change / on_inherit / clearing
-    (line numbers: /repo at ddd7fb8)
+    (line numbers: /repo at 4f69f1f)
 
     IDEAL model (harness/README.md).  Every object ever created has a unique
     [uid]; a handle is a uid.  A deletion computes the set K of objects that
